@@ -235,6 +235,7 @@ def check_case(root, spec, pp, cfg, out, armed):
         out.stats['candidate_enumeration_skipped'] += 1
         return res
     fd = os.open(root, os.O_RDONLY)
+    pfd = os.open(os.path.dirname(root), os.O_RDONLY)
     answers = {}
     try:
       for ci, c in enumerate(cands):
@@ -247,7 +248,7 @@ def check_case(root, spec, pp, cfg, out, armed):
         try:
             with util.watchdog(5):
                 # the same rule whichever way the root is given: root_dir, dir_fd, working directory
-                how = ci % 3
+                how = ci % 4
                 # ... and whether or not an exclusion that excludes nothing is supplied (keyword or inline)
                 xk = [{}, {'exclude': 'zz_nothing*'}, {}, {'exclude': ['zz_nothing', 'zz_other/**']}][(ci // 3) % 4]
                 pats = [text, '!zz_nothing*'] if (ci // 3) % 4 == 2 else text
@@ -256,6 +257,9 @@ def check_case(root, spec, pp, cfg, out, armed):
                     m = G.globmatch(c, pats, flags=fl | G.REALPATH | xf, root_dir=root, **xk)
                 elif how == 1:
                     m = G.globmatch(c, pats, flags=fl | G.REALPATH | xf, dir_fd=fd, **xk)
+                elif how == 3:
+                    # a descriptor of the parent directory plus a relative root_dir
+                    m = G.globmatch(c, pats, flags=fl | G.REALPATH | xf, dir_fd=pfd, root_dir=os.path.basename(root), **xk)
                 else:
                     with util.chdir(root):
                         m = G.globmatch(c, pats, flags=fl | G.REALPATH | xf, **xk)
@@ -291,7 +295,7 @@ def check_case(root, spec, pp, cfg, out, armed):
                 return res
         if m and forced_through_link(comps, lf, segs, full=True, icase=icase):
             cs = dict(case, problem='globmatch(REALPATH) accepted a path below a symlink traversed by `**`', name=c)
-            cs['root_given_as'] = ['root_dir', 'dir_fd', 'cwd'][how]
+            cs['root_given_as'] = ['root_dir', 'dir_fd', 'cwd', 'dir_fd of the parent + root_dir'][how]
             cs['exclusion_form'] = ['none', 'exclude=str', 'inline', 'exclude=list'][(ci // 3) % 4]
             if k17 and 'K17' in armed:
                 out.known_hit('K17', cs)
@@ -323,6 +327,7 @@ def check_case(root, spec, pp, cfg, out, armed):
                 return res
     finally:
         os.close(fd)
+        os.close(pfd)
     return res
 
 
